@@ -3,12 +3,23 @@
    replicated tracts returns (count, error class, bytes), provided every packed tract of the blob is well placed
    and its direct piece is available.  Uses: every range readAt hands to a tract is non-empty. *)
 From Coq Require Import NArith List Bool Arith Lia ZifyN ZifyNat ZifyBool.
-From BLB Require Import Lib.GF256 Lib.RS Gen.Consts C13.Model C13.ProofsPack C13.ProofsRead.
+From BLB Require Import Lib.GF256 Lib.RS Lib.RSProofs Gen.Consts C13.Model C13.ProofsPack C13.ProofsRead.
 Import ListNotations.
 Open Scope N_scope.
 
 Lemma TL_val : TL = 8388608.
 Proof. reflexivity. Qed.
+
+(* every range produced for the first (endt - (off+pos)/TL) tracts is non-empty *)
+(* the arithmetic of one step, with the tract length as a plain number *)
+Lemma range_step : forall T off len pos q o E r f,
+  T = 8388608 -> pos < len ->
+  off + pos = T * q + o -> o < T -> off + len + T - 1 = T * E + r -> r < T ->
+  N.of_nat (S f) <= E - q ->
+  0 < N.min (T - o) (len - pos) /\
+  (f <> O -> N.min (T - o) (len - pos) = T - o /\ off + (pos + (T - o)) = (q + 1) * T /\
+             pos + (T - o) < len /\ N.of_nat f <= E - (q + 1)).
+Proof. intros. subst T. split; [lia|]. intro. repeat split; lia. Qed.
 
 (* every range produced for the first (endt - (off+pos)/TL) tracts is non-empty *)
 Lemma ranges_pos : forall fuel off len pos,
@@ -17,25 +28,17 @@ Lemma ranges_pos : forall fuel off len pos,
   Forall (fun p => 0 < snd p) (ranges fuel off len pos).
 Proof.
   induction fuel as [|f IH]; intros off len pos Hpos Hfuel; [constructor|].
-  cbn [ranges]. cbv zeta.
-  pose proof (N.div_mod (off + pos) TL ltac:(rewrite TL_val; discriminate)) as D1.
-  pose proof (N.mod_lt (off + pos) TL ltac:(rewrite TL_val; discriminate)) as M1.
-  pose proof (N.div_mod (off + len + TL - 1) TL ltac:(rewrite TL_val; discriminate)) as D2.
-  pose proof (N.mod_lt (off + len + TL - 1) TL ltac:(rewrite TL_val; discriminate)) as M2.
-  set (q := (off + pos) / TL) in *. set (o := (off + pos) mod TL) in *.
-  set (E := (off + len + TL - 1) / TL) in *. set (r := (off + len + TL - 1) mod TL) in *.
-  constructor.
-  - cbn [snd]. rewrite TL_val in *. lia.
-  - destruct f as [|f']; [constructor|].
-    (* at least two more tracts: this range runs to the end of its tract *)
-    assert (Hl : N.min (TL - o) (len - pos) = TL - o) by (rewrite TL_val in *; lia).
-    rewrite Hl.
-    assert (Hq : (off + (pos + (TL - o))) / TL = q + 1).
-    { replace (off + (pos + (TL - o))) with ((q + 1) * TL) by (rewrite TL_val in *; lia).
-      apply N.div_mul. rewrite TL_val. discriminate. }
-    apply IH.
-    + rewrite TL_val in *. lia.
-    + rewrite Hq. fold E. rewrite TL_val in *. lia.
+  assert (HT : TL <> 0) by (rewrite TL_val; discriminate).
+  pose proof (N.div_mod (off + pos) TL HT) as D1.
+  pose proof (N.mod_lt (off + pos) TL HT) as M1.
+  pose proof (N.div_mod (off + len + TL - 1) TL HT) as D2.
+  pose proof (N.mod_lt (off + len + TL - 1) TL HT) as M2.
+  destruct (range_step TL off len pos _ _ _ _ f TL_val Hpos D1 M1 D2 M2 Hfuel) as [S1 S2].
+  cbn [ranges]. cbv zeta. constructor; [exact S1|].
+  destruct f as [|f']; [constructor|].
+  destruct (S2 ltac:(discriminate)) as [Hl [Hmul [Hlt Hf]]].
+  rewrite Hl. apply IH; [exact Hlt|].
+  rewrite Hmul, N.div_mul by exact HT. exact Hf.
 Qed.
 
 (* a blob all of whose packed tracts are well placed with their direct piece reachable *)
